@@ -78,6 +78,11 @@ checks = {
    technique="exhaustive crash-point enumeration: the real writer process (real store on real SQLite files) is SIGKILLed by strace fault injection at EVERY state-changing system call on the store files (first-time initialisation, each write transaction, shutdown/checkpoint), then the real recovery path runs on the surviving files and is compared with the reference states of the acknowledged prefix",
    text="For every kill point N: the store opens again, root id and signing key are those announced before the crash (a pre-crash token validates), the recovered content equals the reference state after k or k+1 requests where k = acknowledgements received before death (no acknowledged write lost, each batch all-or-nothing), all hashes are consistent (C03 recomputation), the instance accepts a write, and identity is stable over a further restart.",
    note="Process death only (page cache survives); wal-index (mmap) intermediate states are not separate crash points; strace counts injections per thread, so the writer pins the phase under test to the traced main thread (two writer modes)."),
+ "C13": dict(
+   category="model_checking", design_ref="DESIGN.md §3 C13",
+   technique="stateless model checking of the real RuleClient.Run inside testing/synctest bubbles (virtual clock, quiescence by synctest.Wait): exhaustive enumeration of rule configurations x sequences of point batches / clock advances, every publication of the rule compared with a reference interpreter after each batch",
+   text="Each of 72 single point conditions (all operators, value kinds and filter combinations), all ordered pairs over a reduced set, and 6 schedule windows (incl. midnight wrap) alone or combined with a number condition are run against all batch sequences of length 2 (thorough 3, plus two-point batches) / all operation sequences of length 4 (6) over clock advances and points. Condition active points, the rule active point, exactly one run of the right action list with the rule as origin, and the opposite list marked inactive are checked as multisets per batch.",
+   note="Narrow seam: no store; the rule receives up.<parent>.<node> messages as the store would rebroadcast them (C06). Raw-key filter semantics kept outside the alphabet. Compiled with go1.26.8 for testing/synctest."),
 }
 pending_reason = "check not built yet in this round (planned in DESIGN.md §3); not claimed until its harness exists"
 m = {
@@ -91,7 +96,9 @@ m = {
    "add_only": True,
  },
  "engines": [
-   {"name": "mc", "path": "h/mc", "serves_properties": sorted(checks), "kind_free_text": "hand-written stateless explorer: exhaustive deviation-bounded DFS over choice sequences + exhaustive plain enumerations, evidence/replay/known-findings handling"},
+   {"name": "mc", "path": "h/mc", "serves_properties": sorted(checks), "kind_free_text": "hand-written stateless explorer: exhaustive deviation-bounded DFS over choice sequences (with optional state-key pruning = explicit-state search), process sharding with crash/hang isolation, exhaustive plain enumerations, evidence/replay/known-findings handling"},
+   {"name": "natsgo-shim", "path": "shim/natsgo", "serves_properties": ["C01","C02","C03","C04","C05","C06","C07","C08","C09","C13","C15","C20"], "kind_free_text": "deterministic in-process replacement of module github.com/nats-io/nats.go (replace directive in the harness module only): inline / async / controlled delivery"},
+   {"name": "crash-enumerator", "path": "h/cmd/verifs/c04.go", "serves_properties": ["C04"], "kind_free_text": "strace fault injection: real SIGKILL at every state-changing system call of a real writer process, real recovery on the surviving files"},
  ],
  "checks": [],
  "notes": "All checks: ./run.sh <id> quick|thorough ; replay: ./run.sh replay <file>. known-findings.json lists genuine defects (known / fixed).",
